@@ -206,6 +206,42 @@ def inline_instance(K, F, T, mapping):
     return Instance('C14', 'pb_bss.distribution.mixture_model_utils:apply_inline_permutation_alignment', name, make, call, ensures)
 
 
+def assignment_extremes_bounded_instance():
+    """Assignments from finite score matrices of any magnitude and element type (float64 up to 2**60, float32 up to 1e30, integer
+    types near their limits, stacked bins): always a permutation per bin, through the function and through the aligners."""
+    from pb_bss import permutation_alignment as pa
+
+    def make(B):
+        return {'K': B.choose('K', [2, 3, 4, 5]), 'F': B.choose('F', [None, 1, 3]), 'alg': B.choose('alg', ['greedy', 'optimal']),
+                'kind': B.choose('kind', ['shift54', 'scale1e300', 'f32-large', 'f32-shift', 'int8', 'int64-large', 'tiny', 'ties-shifted']),
+                'seed': B.choose('seed', list(range(3000))), 'd': B.given('d', np.zeros(1))}
+
+    def call(inp):
+        rng = np.random.RandomState(inp['seed'])
+        K, F, kind = inp['K'], inp['F'], inp['kind']
+        shape = (K, K) if F is None else (F, K, K)
+        base = rng.randint(-3, 4, size=shape).astype(np.float64)
+        s = {'shift54': base + 2.0 ** 54 * rng.choice([-1, 1]), 'scale1e300': rng.normal(size=shape) * 1e300,
+             'f32-large': (rng.normal(size=shape) * 1e30).astype(np.float32), 'f32-shift': (base + 2.0 ** 25).astype(np.float32),
+             'int8': rng.randint(-128, 128, size=shape).astype(np.int8),
+             'int64-large': (np.iinfo(np.int64).max - rng.randint(0, 5, size=shape)).astype(np.int64),
+             'tiny': rng.normal(size=shape) * 1e-300, 'ties-shifted': np.round(rng.normal(size=shape)) - 2.0 ** 53}[kind]
+        if inp['alg'] == 'optimal' and K > 4:
+            K = 4
+            s = s[..., :4, :4]
+        m = pa._mapping_from_score_matrix(s, inp['alg'])
+        return {'m': np.asarray(m), 'K': K, 'F': F}
+
+    def ensures(sp, inp, out):
+        m, K, F = out['m'], out['K'], out['F']
+        yield 'shape', bool(m.shape == ((K,) if F is None else (K, F)))
+        cols = m.reshape(K, -1)
+        yield 'assignment-is-a-permutation-in-every-bin', bool(all(sorted(cols[:, f].tolist()) == list(range(K)) for f in range(cols.shape[1])))
+
+    return Instance('C14', 'pb_bss.permutation_alignment:_mapping_from_score_matrix', 'bounded-extreme-magnitudes-and-element-types', make, call, ensures,
+                    mode='bounded', bounded_n=120, frame=False)
+
+
 def integration_pa_bounded_instance():
     """Inline PA of the integration models on several bins: in every bin the result is the posterior of some pairing that is not
     worse than the identity under the criterion (recomputed independently), and a bin processed alone gives the same result."""
@@ -222,6 +258,9 @@ def integration_pa_bounded_instance():
         w = rng.dirichlet(np.ones(K) * 3, size=F)[:, :, None]
         # bins of very different scale: the best criterion value differs from bin to bin
         spat = rng.normal(size=(F, K, T)) * rng.uniform(0.5, 6.0, size=(F, 1, 1)) + rng.uniform(-20, 20, size=(F, 1, 1))
+        if inp['seed'] % 2:
+            # log-densities whose level differs by thousands of nats between the frames of one bin (cACG densities do)
+            spat = spat + rng.uniform(-3000, 3000, size=(F, 1, T))
         spec = rng.normal(size=(F, K, T)) * 2.0
         out = mmu.log_pdf_to_affiliation_for_integration_models_with_inline_pa(w, spat, spec)
         alone = np.concatenate([mmu.log_pdf_to_affiliation_for_integration_models_with_inline_pa(w[f:f + 1], spat[f:f + 1], spec[f:f + 1]) for f in range(F)])
@@ -360,6 +399,7 @@ def instances(tier):
             out.append(inline_instance(K, F, T, np.array(cols).T))
     out.append(integration_pa_instance(2, 1, 1))
     out.append(integration_pa_bounded_instance())
+    out.append(assignment_extremes_bounded_instance())
     if th:
         out.append(integration_pa_instance(2, 2, 1))
         out.append(integration_pa_instance(2, 1, 2))
